@@ -5,6 +5,7 @@ from __future__ import annotations
 import glob
 import json
 import os
+import re
 import shutil
 import subprocess
 import sys
@@ -98,11 +99,21 @@ def sensitivity(args):
     never touched)."""
     metas = sorted(glob.glob(os.path.join(VERIF, "seeded", "*", "meta.json")))
     missed, rows, unreplayed = [], [], []
+    try:
+        commit = subprocess.run(["git", "-C", VERIF, "rev-parse", "--short", "HEAD"], capture_output=True, text=True, check=False).stdout.strip()
+        if subprocess.run(["git", "-C", VERIF, "status", "--porcelain", "--", "simkit", "check"], capture_output=True, text=True, check=False).stdout.strip():
+            commit += "+uncommitted"
+    except OSError:
+        commit = "?"
     for mpath in metas:
         with open(mpath) as fh:
             meta = json.load(fh)
         sid = os.path.basename(os.path.dirname(mpath))
-        if args.replay and args.replay not in sid:  # --replay doubles as an id filter here
+        # --replay doubles as a filter here: "<regex on the id>[@<check>]"
+        id_re, _, only_chk = (args.replay or "").partition("@")
+        if id_re and not re.search(id_re, sid):
+            continue
+        if only_chk and only_chk not in meta.get("caught_by", []):
             continue
         patch = os.path.join(os.path.dirname(mpath), "patch.diff")
         try:
@@ -114,11 +125,14 @@ def sensitivity(args):
         try:
             seeds = [x for x in (args.seeds or "").split(",") if x] or [os.environ.get("VERIF_SEED") or "1"]
             for chk in meta.get("caught_by", []):
+                if only_chk and chk != only_chk:
+                    continue
                 for seed in seeds:
                     env = dict(os.environ)
                     env["VERIF_REPO"] = d
                     env["VERIF_REPO_SRC"] = os.path.join(d, "src")
                     env["VERIF_SEED"] = str(seed)
+                    env["VERIF_REPLAY_DIR"] = os.path.join(d, "replays")  # private: concurrent runs never see each other's files
                     t0 = time.time()
                     p = subprocess.run([CHECK, chk, "--tier", "quick", "--no-evidence", "--no-shrink"], env=env,
                                        capture_output=True, text=True, timeout=3600, check=False)
@@ -136,7 +150,7 @@ def sensitivity(args):
                                     verified = json.load(fh).get("replay_verified_in_fresh_interpreter")
                             except Exception:  # noqa: BLE001
                                 verified = "unreadable"
-                    rows.append((sid, chk, hit, oracle, round(time.time() - t0, 1), int(seed), verified))
+                    rows.append((sid, chk, hit, oracle, round(time.time() - t0, 1), int(seed), verified, commit))
                     if hit and verified is not True:
                         print(f"[sensitivity] {sid} vs {chk}: replay file did NOT reproduce in a fresh interpreter ({verified})", flush=True)
                         unreplayed.append(f"{sid}/{chk}/seed{seed}")
@@ -145,12 +159,23 @@ def sensitivity(args):
                         missed.append(f"{sid}/{chk}/seed{seed}")
         finally:
             shutil.rmtree(d, ignore_errors=True)
-            for f in glob.glob(os.path.join(VERIF, "replays", "*.json")):
-                os.unlink(f)
     out = os.path.join(VERIF, "evidence", "selftest-sensitivity.json")
+    keys = ("seeded", "check", "caught", "oracle", "seconds", "verif_seed", "replay_reproduced_in_fresh_interpreter", "verif_commit")
+    new_rows = [dict(zip(keys, r)) for r in rows]
+    if args.replay and os.path.exists(out):
+        # a filtered run replaces the rows of the (change, check, seed) triples it re-ran and keeps the others
+        with open(out) as fh:
+            old = json.load(fh)
+        redone = {(r["seeded"], r["check"], r["verif_seed"]) for r in new_rows}
+        kept = [r for r in old.get("rows", []) if (r["seeded"], r["check"], r["verif_seed"]) not in redone]
+        new_rows = sorted(kept + new_rows, key=lambda r: (r["seeded"], r["check"], r["verif_seed"]))
+        tag = lambda r: f"{r['seeded']}/{r['check']}/seed{r['verif_seed']}"  # noqa: E731
+        all_missed = [tag(r) for r in new_rows if not r["caught"]]
+        all_unreplayed = [tag(r) for r in new_rows if r["caught"] and r["replay_reproduced_in_fresh_interpreter"] is not True]
+    else:
+        all_missed, all_unreplayed = missed, unreplayed
     with open(out, "w") as fh:
-        json.dump({"rows": [dict(zip(("seeded", "check", "caught", "oracle", "seconds", "verif_seed", "replay_reproduced_in_fresh_interpreter"), r)) for r in rows], "missed": missed,
-                   "replay_not_reproduced": unreplayed}, fh, indent=1)
+        json.dump({"rows": new_rows, "missed": all_missed, "replay_not_reproduced": all_unreplayed}, fh, indent=1)
         fh.write("\n")
     print(f"[sensitivity] {len(rows) - len(missed)} of {len(rows)} caught; missed: {missed}; replay files not reproduced: {unreplayed}")
     return 0 if not (missed or unreplayed) else 2
